@@ -237,6 +237,11 @@ pub fn record(seed: u64, n: usize, cli: Option<&str>) -> Vec<J> {
         else { cur.push(e["src"].as_str().unwrap().to_string()); }
     }
     if !cur.is_empty() { programs.push(cur); }
+    // grammar-directed whole programs over the full expression language
+    let mut gr = Rng::new(seed ^ 0xABCD);
+    let whole_from = programs.len();
+    for _ in 0..n { programs.push(vec![crate::proggen::program(&mut gr)]); }
+    let whole_to = programs.len();
     for e in c14.iter().chain(c11.iter()) {
         if let Some(src) = e["src"].as_str() { if !src.contains("==?") { programs.push(vec![format!("r = {}", src)]); } }
     }
@@ -255,6 +260,8 @@ pub fn record(seed: u64, n: usize, cli: Option<&str>) -> Vec<J> {
             for (i, b) in before.iter().enumerate() {
                 if after[i].0 != b.0 { changed.push(i); } else if after[i].1 != b.1 { renamed.push(i); if b.1 != "None" { renamed_named.push(i); } }
             }
+            // a whole multi-statement program may name several functions: only content changes are reported for those
+            if pi >= whole_from && pi < whole_to { renamed.clear(); renamed_named.clear(); }
             if r.chance(1, 3) || !changed.is_empty() || renamed.len() > 1 {
                 out.push(json!({"ev":"heap","src":st,"cells_before":before.len(),"cells_after":after.len(),"changed":changed,"renamed":renamed,"renamed_named":renamed_named,
                                 "is_assignment": st.contains(" = ")}));
